@@ -37,31 +37,32 @@ var bedUpstreams = []struct{ Tag, Scheme, Transport string }{
 }
 
 type BedOpts struct {
-	Listeners  []string // default: all eight
-	Upstreams  []string // tags; default: all
-	MemSize    int      // cache.mem_size (0 = cache off)
-	MaxTTL     int
-	ECS        bool
-	IpMarker   string // content of the ip marker file ("" = none)
-	Limiter    string // yaml block under "limiter:" ("" = none)
-	TcpMaxConc int
+	Listeners        []string // default: all eight
+	Upstreams        []string // tags; default: all
+	MemSize          int      // cache.mem_size (0 = cache off)
+	MaxTTL           int
+	ECS              bool
+	IpMarker         string // content of the ip marker file ("" = none)
+	Limiter          string // yaml block under "limiter:" ("" = none)
+	TcpMaxConc       int
 	ClientAddrHeader string
-	Env        map[string]string
-	LogLevel   string
+	Env              map[string]string
+	LogLevel         string
 	VerifyClientCert bool
-	UdpRcvBuf  int
+	UdpRcvBuf        int
+	KeepRaw          bool // fake upstreams keep the wire bytes of every query
 }
 
 type Bed struct {
-	c      *Ctx
-	Dir    string
-	Up     map[string]*fakeup.Server
-	Proxy  *proxyproc.Proxy
-	L      map[string]string // listener kind -> host:port
-	CA     *pki.CA
+	c        *Ctx
+	Dir      string
+	Up       map[string]*fakeup.Server
+	Proxy    *proxyproc.Proxy
+	L        map[string]string // listener kind -> host:port
+	CA       *pki.CA
 	ProxyTLS *tls.Config // client config for the proxy's TLS listeners
-	Metrics string
-	opts   BedOpts
+	Metrics  string
+	opts     BedOpts
 }
 
 const proxyCertName = "proxy.test"
@@ -120,6 +121,7 @@ func listenBoth(tag string) (*fakeup.Server, error) {
 		}
 		addr := fmt.Sprintf("127.0.0.1:%d", ports[0])
 		s := fakeup.NewServer(tag)
+		s.KeepRaw = true
 		if err = s.ListenUDP(addr); err != nil {
 			continue
 		}
@@ -176,6 +178,7 @@ func newBedOnce(c *Ctx, name string, o BedOpts) (*Bed, error) {
 			return nil, fmt.Errorf("unknown upstream tag %s", tag)
 		}
 		s := fakeup.NewServer(tag)
+		s.KeepRaw = o.KeepRaw
 		var err error
 		switch spec.Transport {
 		case "udp":
@@ -565,7 +568,6 @@ func countMosRaces(res *proxyproc.Result) int {
 	}
 	return n
 }
-
 
 // startFailure classifies a NewBed error: harness-side set-up problems are inconclusive,
 // a proxy that does not come up with a valid configuration is a violation.
